@@ -153,6 +153,7 @@ DecodeOnly ==
 Forms == Format1 \cup Format2 \cup Jumps \cup Emulated \cup DecodeOnly
 
 \* source operand 0(Rn): an assembler may emit @Rn instead; immediates with the bit pattern of a generated constant
+After(cpu, prev, form, units) == units
 Skipped(cpu, form, ops) ==
   \/ /\ Len(form.args) >= 1 /\ form.args[1].f2 # 0
      /\ (Len(form.args) = 2 \/ form.enc[1].c < 16384 \/ form.mn = "BR")   \* first argument is a SOURCE operand
